@@ -776,12 +776,24 @@ def r9(k: Kit) -> None:
     g = k.cfg(fi)
     rec = [nd for nd, c in k.calls_named(fi, '_copy', 'self')]
     rep.floor('C13.R9', 'recursive copies', len(rec), 1)
+    # local names bound to a set (set() / {...} / annotated Set[...] = set())
+    seen_sets = set()
+    for x_ in ast.walk(fi.node):
+        tg, v_ = None, None
+        if isinstance(x_, ast.Assign) and len(x_.targets) == 1:
+            tg, v_ = x_.targets[0], x_.value
+        elif isinstance(x_, ast.AnnAssign):
+            tg, v_ = x_.target, x_.value
+        if isinstance(tg, ast.Name) and v_ is not None and (
+                is_call(v_, 'set') or isinstance(v_, ast.Set)):
+            seen_sets.add(tg.id)
 
     def fresh(x: Node) -> Optional[bool]:
         a = x.ast
         if x.kind == 'atom' and isinstance(a, ast.Compare) and \
-                len(a.ops) == 1 and dotted(a.left) == 'filename' and \
-                isinstance(a.comparators[0], (ast.Name, ast.Attribute)):
+                len(a.ops) == 1 and isinstance(a.left, ast.Name) and \
+                isinstance(a.comparators[0], ast.Name) and \
+                a.comparators[0].id in seen_sets:
             if isinstance(a.ops[0], ast.In):
                 return False
             if isinstance(a.ops[0], ast.NotIn):
